@@ -395,6 +395,7 @@ class Model(Object):
                 new.__dict__[attr] = self.__dict__[attr]
         new.notes = deepcopy(self.notes)
         new.annotation = deepcopy(self.annotation)
+        new._compartments = deepcopy(self._compartments)
 
         new.metabolites = DictList()
         do_not_copy_by_ref = {"_reaction", "_model"}
@@ -402,7 +403,7 @@ class Model(Object):
             new_met = metabolite.__class__()
             for attr, value in metabolite.__dict__.items():
                 if attr not in do_not_copy_by_ref:
-                    new_met.__dict__[attr] = copy(value) if attr == "formula" else value
+                    new_met.__dict__[attr] = deepcopy(value)
             new_met._model = new
             new.metabolites.append(new_met)
 
@@ -411,9 +412,7 @@ class Model(Object):
             new_gene = gene.__class__(None)
             for attr, value in gene.__dict__.items():
                 if attr not in do_not_copy_by_ref:
-                    new_gene.__dict__[attr] = (
-                        copy(value) if attr == "formula" else value
-                    )
+                    new_gene.__dict__[attr] = deepcopy(value)
             new_gene._model = new
             new.genes.append(new_gene)
 
@@ -423,7 +422,7 @@ class Model(Object):
             new_reaction = reaction.__class__()
             for attr, value in reaction.__dict__.items():
                 if attr not in do_not_copy_by_ref:
-                    new_reaction.__dict__[attr] = copy(value)
+                    new_reaction.__dict__[attr] = deepcopy(value)
             new_reaction._model = new
             new.reactions.append(new_reaction)
             # update awareness
@@ -441,7 +440,7 @@ class Model(Object):
             new_group: Group = group.__class__(group.id)
             for attr, value in group.__dict__.items():
                 if attr not in do_not_copy_by_ref:
-                    new_group.__dict__[attr] = copy(value)
+                    new_group.__dict__[attr] = deepcopy(value)
             new_group._model = new
             new.groups.append(new_group)
         for group in self.groups:
